@@ -118,7 +118,9 @@ func (c *Ctx) storeAt(st *State, base, ref string, ft types.Type, v Val) {
 			panic(unsupported{fmt.Sprintf("store of %T into scalar field %s", v, base)})
 		}
 		if sv.S.K == "i2b" {
-			panic(unsupported{"store of lazy int->bv conversion into " + base})
+			// truncation of a mathematical integer to a sized type: value abstracted (never int2bv)
+			c.abstracted("int -> sized integer truncation stored into " + base)
+			sv = Scalar{c.fresh("trunc", s), s}
 		}
 		c.heapPut(st, base, s.smt(), ref, sv.T)
 		return
@@ -157,6 +159,10 @@ func (c *Ctx) storeAt(st *State, base, ref string, ft types.Type, v Val) {
 			return
 		}
 	case *types.Map:
+		if _, isOp := v.(OpaqueV); isOp {
+			m := c.symbolicMap("omap", t)
+			v = m
+		}
 		if m, ok := v.(MapV); ok {
 			c.heapPut(st, base+".len", is, ref, m.Len)
 			c.heapPut(st, base+".nil", "Bool", ref, m.Nil)
@@ -169,6 +175,9 @@ func (c *Ctx) storeAt(st *State, base, ref string, ft types.Type, v Val) {
 		switch x := v.(type) {
 		case PtrV:
 			c.heapPut(st, base, "Int", ref, x.Ref)
+			if x.Cell != "" {
+				c.heapPut(st, base+".cell", "Int", ref, fmt.Sprint(intern(x.Cell))) // which container the pointer designates (&x.F)
+			}
 			return
 		case ErrV:
 			c.heapPut(st, base, "Int", ref, x.T)
